@@ -276,6 +276,9 @@ func (e *env) doSplit(key []byte) {
 	}
 	ids := e.cluster.AllocIDs(2)
 	e.cluster.Split(r.Id, ids[0], key, []uint64{ids[1]}, ids[1])
+	if e.armPD || e.armScan || e.recDel {
+		count("split-fired-during-action")
+	}
 }
 
 func must(errs []error) {
@@ -472,7 +475,11 @@ func (e *env) opRun(s, en []byte, rpt, workers, fail int) string {
 	e.arm(false, false, false, false)
 	sortRanges(got)
 	failed := fail >= 0 && int(atomic.LoadInt32(&calls)) > fail
+	if len(got) > 1 {
+		count("run:several-sub-ranges")
+	}
 	if failed {
+		count("run:handler-failed")
 		if err == nil {
 			return "FAIL failure-not-reported " + rangesStr(got)
 		}
@@ -605,6 +612,17 @@ func (e *env) opGC(mode string, sp uint64, limit, rpt, workers int) string {
 		return "ok left=" + joinOr(",", left)
 	}
 	sort.SliceStable(tasks, func(i, j int) bool { return bytes.Compare(tasks[i].r.StartKey, tasks[j].r.StartKey) < 0 })
+	for i, s := range scans {
+		if mode == "shim" && s.n >= limit {
+			count("gc:scan-hit-limit")
+		}
+		if i > 0 && bytes.Equal(scans[i-1].lo, s.lo) && len(tasks) == 1 {
+			count("gc:rescan-from-same-key")
+		}
+	}
+	if len(tasks) > 1 {
+		count("gc:several-tasks")
+	}
 	var ts []string
 	for _, t := range tasks {
 		var ss []string
@@ -828,6 +846,9 @@ func (e *env) opVis(method string, sp uint64, age int, ts uint64, key []byte) st
 // ---------------------------------------------------------------- op execution
 
 var cur *env
+
+// count records a generator / coverage statistic (set in main)
+var count = func(string) {}
 
 func parseCsv(s string) ([][]byte, bool) {
 	if s == "-" {
@@ -1211,10 +1232,11 @@ func main() {
 		}
 		return
 	}
+	count = run.Count
 	g := &gen{r: vx.NewRand(run.Seed), run: run}
-	nRun, nDel, nGC, nVis, nPhase := 60, 30, 50, 12, 6
+	nRun, nDel, nGC, nVis, nPhase := 300, 120, 250, 40, 20
 	if run.Thorough() {
-		nRun, nDel, nGC, nVis, nPhase = 1500, 600, 1200, 150, 100
+		nRun, nDel, nGC, nVis, nPhase = 9000, 3000, 8000, 600, 300
 	}
 	for i := 0; i < nRun; i++ {
 		g.caseRun()
